@@ -117,7 +117,8 @@ where
         }
 
         let algorithm = Arc::clone(&self.algorithm);
-        let in_flight = Arc::clone(&self.in_flight);
+        // Released when the call ends in any way: completion, error, panic or drop
+        let in_flight = InFlightGuard(Arc::clone(&self.in_flight));
         let semaphore = Arc::clone(&self.semaphore);
         let current_limit = Arc::clone(&self.current_limit);
 
@@ -127,7 +128,7 @@ where
                 let latency = start.elapsed();
 
                 // Decrement in-flight counter
-                in_flight.fetch_sub(1, Ordering::Relaxed);
+                drop(in_flight);
 
                 match &result {
                     Ok(_) => algorithm.record_success(latency),
@@ -148,6 +149,16 @@ where
                 result.map_err(AdaptiveError::Service)
             }),
         }
+    }
+}
+
+/// Decrements the in-flight counter when dropped, so a call stops counting as in flight
+/// however it ends (also when its future is dropped or the inner service panics).
+struct InFlightGuard(Arc<AtomicUsize>);
+
+impl Drop for InFlightGuard {
+    fn drop(&mut self) {
+        self.0.fetch_sub(1, Ordering::Relaxed);
     }
 }
 
